@@ -16,8 +16,151 @@ def plist(rng, lo, hi, pool=6):
     return ",".join(map(str, xs))
 
 
+# ---------------------------------------------------------------- UPDATEs from the wire
+# Prefixes the wire-level ops draw from, as <len>/<hex>, per address family. 10.1.0.0/16, 10.2.0.0/16 and
+# 2001:db8:1::/48 are also the prefixes 1, 2 (and IPv6 1) of the abstract ops, so both kinds of op meet in the RIB.
+V4POOL = ["16/0a01", "16/0a02", "24/c63364", "8/0b", "32/0a010203", "9/0a80"]
+V6POOL = ["48/20010db80001", "32/20010db8", "64/20010db800010002", "128/20010db8000000000000000000000001"]
+# families as C04's AST numbers them: 0 = IPv4 unicast, 1 = IPv4 multicast, 2 = IPv6 unicast, 3 = IPv6 multicast
+UNKNOWN_FAMS = [(1, 3), (1, 66), (2, 3), (3, 1), (25, 1), (2, 129)]
+
+
+def _hexs(bs):
+    return "".join("%02x" % b for b in bs) if bs else "-"
+
+
+def _raw_attrs(rng, conv_nlri):
+    a = ["G 64 1 %02x" % rng.below(3)]
+    path = []
+    for _ in range(rng.range(1, 3)):
+        path += list((64500 + rng.below(40)).to_bytes(4, "big"))
+    a.append("G 64 2 %s" % _hexs([2, len(path) // 4] + path))
+    if conv_nlri or rng.chance(30):
+        a.append("G 64 3 0a0000%02x" % rng.range(1, 9))
+    if rng.chance(70):
+        a.append("G 128 4 %s" % _hexs([0, 0, 0, rng.below(8)]))      # MED: tells attribute sets apart
+    if rng.chance(25):
+        a.append("G 192 8 %s" % _hexs([0xfd, 0xe8, 0, rng.below(4)]))
+    if rng.chance(10):
+        a.append("G 192 32 %s" % _hexs([0, 0, 0xfd, 0xe8, 0, 0, 0, 1, 0, 0, 0, rng.below(4)]))
+    return a
+
+
+def _pick(rng, fam, lo=1, hi=2):
+    pool = V4POOL if fam in (0, 1) else V6POOL
+    out = []
+    for _ in range(rng.range(lo, hi)):
+        x = rng.choice(pool)
+        if x not in out:
+            out.append(x)
+    return out
+
+
+def _mp(kind, fam, ps, rng):
+    body = "P %d %d %s" % (fam, len(ps), " ".join(ps))
+    if kind == "R":
+        nh = _hexs([rng.below(256) for _ in range(4 if fam in (0, 1) else 16)])
+        return "R %d %s 0 %s" % (0x80 | (0x10 if rng.chance(25) else 0), nh, body)
+    return "N %d %s" % (0x80 | (0x10 if rng.chance(25) else 0), body)
+
+
+def raw_ast(rng, kind):
+    """One UPDATE as an AST of C04's encoder (oracle c04enc). Returns (ast, post) where post is None, 'tail' (the
+    length octet of the PDU's last prefix, an /8, is to be overwritten so that the NLRI no longer parses) or 'mut'."""
+    wd, attrs, nlri, post = [], [], [], None
+    if kind == "eor":
+        k = rng.below(3)
+        if k == 0:
+            return "U 0 0 0", None
+        if k == 1:
+            return "U 0 1 N 128 P %d 0 0" % rng.below(4), None
+        afi, safi = rng.choice(UNKNOWN_FAMS)
+        return "U 0 1 N 128 O %d %d - 0" % (afi, safi), None
+    if kind in ("ann", "both", "eorlike", "unk", "mut"):
+        fam = rng.weighted([(0, 40), (1, 30), (2, 18), (3, 12)])
+        ps = _pick(rng, fam)
+        conv = fam == 0 and rng.chance(60)
+        attrs = _raw_attrs(rng, conv)
+        if conv:
+            nlri = ps
+        else:
+            attrs.insert(rng.below(len(attrs) + 1), _mp("R", fam, ps, rng))
+        if kind == "eorlike":
+            attrs.insert(rng.below(len(attrs) + 1), "N 128 P %d 0" % rng.below(4))
+        if kind == "unk":
+            afi, safi = rng.choice(UNKNOWN_FAMS)
+            raw = _hexs([rng.below(256) for _ in range(rng.range(0, 12))])
+            if conv and rng.chance(50):
+                attrs.insert(rng.below(len(attrs) + 1), "R 128 0a000001 0 O %d %d %s" % (afi, safi, raw))
+            else:
+                attrs.insert(rng.below(len(attrs) + 1), "N 128 O %d %d %s" % (afi, safi, raw))
+    if kind in ("wd", "both") or (kind == "mut" and rng.chance(50)):
+        fam = rng.weighted([(0, 40), (1, 30), (2, 18), (3, 12)])
+        ps = _pick(rng, fam)
+        if fam == 0 and rng.chance(60):
+            wd = ps
+        elif not any(x.startswith("N ") for x in attrs):
+            attrs.insert(rng.below(len(attrs) + 1), _mp("N", fam, ps, rng))
+    if kind == "tail":
+        # a good prefix from the pool, then an /8 whose length octet will be spoilt; the MP attribute is the last
+        # thing in the PDU. Conventional withdrawals / other attributes may precede it.
+        fam = rng.weighted([(0, 25), (1, 30), (2, 25), (3, 20)])
+        ps = _pick(rng, fam) + ["8/%02x" % rng.range(1, 250)]
+        reach = rng.chance(40)
+        attrs = _raw_attrs(rng, False) if reach or rng.chance(30) else []
+        if rng.chance(30):
+            wd = _pick(rng, 0)
+        attrs.append(_mp("R" if reach else "N", fam, ps, rng))
+        post = "tail"
+    if kind == "mut":
+        post = "mut"
+    return "U %d %s %d %s %d %s" % (len(wd), " ".join(wd), len(attrs), " ".join(attrs), len(nlri), " ".join(nlri)), post
+
+
+def raw_plan(rng, n=(5, 12)):
+    kinds = [("ann", 34), ("wd", 22), ("both", 10), ("tail", 12), ("mut", 10), ("eor", 4), ("eorlike", 4), ("unk", 4)]
+    return [raw_ast(rng, rng.weighted(kinds)) for _ in range(rng.range(*n))]
+
+
+def encode_plans(V, rng, plans):
+    """ASTs -> octets through the PROVED encoder (oracle c04enc); the malformed variants are made from its output.
+    PDUs on which C04's decoder and routecore are known to differ (C04's findings and its one tolerance) are left out:
+    they are C04's business. Returns, per plan, the list of hex strings."""
+    from props import c04 as C04
+    flat = [a for pl in plans for a, _ in pl]
+    enc = V.run_lines(V.ORACLE, "c04enc", flat, shards=4)
+    out, k, cand = [], 0, []
+    for pi, pl in enumerate(plans):
+        hs = []
+        for ast, post in pl:
+            parts = enc[k].split()
+            k += 1
+            if len(parts) != 3 or parts[0] != "1":
+                raise V.CheckBroken(f"c04enc failed on / rejected the AST {ast!r}: {enc[k - 1]}")
+            hx = parts[2]
+            if post == "tail":
+                b = bytearray.fromhex(hx)
+                r = rng.fork("tail%d.%d" % (pi, len(hs)))
+                b[-2] = r.choice([200, 255, 129, 33, 40]) if r.chance(70) else r.range(9, 32)   # too long for the family / runs past the end
+                hx = b.hex()
+            elif post == "mut":
+                _, hx = C04.mutate(rng.fork("mut%d.%d" % (pi, len(hs))), hx)
+                b = list(bytes.fromhex(hx))
+                C04.fix_len(b)
+                hx = "".join("%02x" % x for x in b)
+            if post:
+                cand.append((pi, len(hs)))
+            hs.append(hx)
+        out.append(hs)
+    # the malformed ones: ask C04's oracle whether the PDU is in one of the classes C04 keeps for itself
+    obs = V.run_lines(V.ORACLE, "c04", ["wm " + out[pi][j] for pi, j in cand], shards=4)
+    drop = {(pi, j) for (pi, j), o in zip(cand, obs) if "<ERR|" in o or "|||" in o or o.startswith("MODEL-ERROR")}
+    return [[h for j, h in enumerate(hs) if (pi, j) not in drop and len(h) // 2 >= 19 and int(h[32:36], 16) == len(h) // 2]
+            for pi, hs in enumerate(out)]
+
+
 def gen_case(rng, peers=ALL_PEERS, flaps=True, reup=True, metrics=True, bgp=True, nrouters=2, length=(6, 45),
-             malformed=True, queries=(2, 6), query_ops=True):
+             malformed=True, queries=(2, 6), query_ops=True, raw=None):
     ops = []
     routers = {}          # k -> dict(init, up:set)
     gone = set()          # (k, i) peers that went down; k routers that disconnected; ("b", b) closed BGP sessions
@@ -30,7 +173,8 @@ def gen_case(rng, peers=ALL_PEERS, flaps=True, reup=True, metrics=True, bgp=True
             ops.append(f"I {k}")
             routers[k]["init"] = True
     for _ in range(n):
-        choices = [("R", 34), ("U", 14), ("D", 7 if flaps else 0), ("E", 6), ("S", 2), ("Q", 9 if query_ops else 0),
+        choices = [("RB", 30 if raw else 0), ("AB", 9 if raw and bgp else 0), ("QX", 8 if raw and query_ops else 0),
+                   ("R", 34 if not raw else 14), ("U", 14), ("D", 7 if flaps else 0), ("E", 6), ("S", 2), ("Q", 9 if query_ops else 0),
                    ("M", 6 if metrics else 0), ("B", 3 if malformed else 0), ("I", 2), ("T", 1 if flaps else 0),
                    ("X", 2 if flaps else 0), ("C", 3), ("O", 3 if bgp else 0), ("A", 8 if bgp else 0), ("Z", 2 if bgp and flaps else 0)]
         op = rng.weighted([c for c in choices if c[1] > 0])
@@ -60,6 +204,13 @@ def gen_case(rng, peers=ALL_PEERS, flaps=True, reup=True, metrics=True, bgp=True
             if st and i in st["up"]:
                 st["up"].discard(i)
                 gone.add((k, i))
+        elif op == "RB":
+            i = rng.choice(sorted(st["up"])) if st and st["up"] and rng.chance(92) else rng.choice(peers)
+            ops.append(f"RB {k} {i} {rng.choice(raw)}")
+        elif op == "AB":
+            ops.append(f"AB {rng.below(2)} {rng.choice(raw)}")
+        elif op == "QX":
+            ops.append(_qx(rng))
         elif op in ("R", "E", "S", "B"):
             i = rng.choice(sorted(st["up"])) if st and st["up"] and rng.chance(90) else rng.choice(peers)
             if op == "R":
@@ -111,10 +262,22 @@ def gen_case(rng, peers=ALL_PEERS, flaps=True, reup=True, metrics=True, bgp=True
             ops.append(f"M {k}")
     for _ in range(rng.range(*queries) if query_ops else 0):
         ops.append(f"Q 0 {rng.below(6) + 1}")
+    if raw and query_ops:
+        for x in V4POOL:
+            ops.append(f"QX 0 {x}")
+        for x in V6POOL:
+            if rng.chance(60):
+                ops.append(f"QX 1 {x}")
     if metrics:
         for k in sorted(routers):
             ops.append(f"M {k}")
     return ";".join(ops)
+
+
+def _qx(rng):
+    if rng.chance(70):
+        return f"QX 0 {rng.choice(V4POOL)}"
+    return f"QX 1 {rng.choice(V6POOL)}"
 
 
 def classify(case, out):
@@ -139,4 +302,10 @@ def classify(case, out):
             kinds.add("query-multi-peer")
         elif t.startswith("m:"):
             kinds.add("metrics-read")
+    for o in case.split(";"):
+        t = o.split()
+        if t and t[0] in ("RB", "AB"):
+            kinds.add("update-from-the-wire")
+        if t and t[0] == "QX":
+            kinds.add("query-ipv6" if t[1] == "1" else "query-wire-prefix")
     return ks + sorted(kinds)
